@@ -616,6 +616,17 @@ pub fn check(run: &Run) -> Value {
     });
     let n_pairs = o.cases;
     total.merge(o);
+    let dcs = double_cases();
+    let o = run_cases(&dcs, &|_, c, out| {
+        out.nontrivial += 1;
+        out.executions += 4;
+        let vs = judge_double(c);
+        out.outcome(if vs.is_empty() { "double-legacy-ok" } else { "double-legacy-violation" });
+        for (k, w) in vs {
+            out.violation(k, w, || serde_json::to_value(c).unwrap());
+        }
+    });
+    total.merge(o);
     total.report(run);
     println!("C15 two migrations on one instance: {} cases", n_pairs);
     let declared: std::collections::BTreeSet<String> = pairs.iter().map(|p| format!("{}->{}", p.1, p.2)).collect();
@@ -631,11 +642,15 @@ pub fn check(run: &Run) -> Value {
         "outcomes": total.outcomes,
         "samples": total.samples.iter().map(|s| serde_json::from_str::<Value>(s).unwrap()).collect::<Vec<_>>(),
         "exhaustive": true,
-        "rule": "every (class, legacy property) pair of the database whose serialization is Migrate (on the declaring class and every subclass) x every value the database allows for the legacy type (all items of Enum.Font, all BrickColor numbers, both booleans, a URI alphabet) x new property absent / present x four paths (write binary, write XML, read binary, read XML; read paths from files that still carry the legacy name, in both encounter orders, for XML also with the two elements in two separate <Properties> elements of the Item), compared with PropertyMigration::perform and with each other",
+        "rule": "every (class, legacy property) pair of the database whose serialization is Migrate (on the declaring class and every subclass) x every value the database allows for the legacy type (all items of Enum.Font, all BrickColor numbers, both booleans, a URI alphabet) x new property absent / present x four paths (write binary, write XML, read binary, read XML; read paths from files that still carry the legacy name, in both encounter orders, for XML also with the two elements in two separate <Properties> elements of the Item), compared with PropertyMigration::perform and with each other; two legacy spellings with different values on one instance: writing binary and writing XML must agree",
     })
 }
 
 pub fn replay(case: &Value) -> Vec<(String, String)> {
+    if case.get("double_a").is_some() {
+        let c: CaseDouble = serde_json::from_value(case.clone()).unwrap_or_else(|e| crate::evidence::machinery_failure(&format!("bad replay: {}", e)));
+        return judge_double(&c);
+    }
     if case.get("legacy_a").is_some() {
         let c: CasePair = serde_json::from_value(case.clone()).unwrap_or_else(|e| crate::evidence::machinery_failure(&format!("bad replay: {}", e)));
         return judge_pair(&c);
@@ -647,4 +662,105 @@ pub fn replay(case: &Value) -> Vec<(String, String)> {
         crate::evidence::machinery_failure("replay gave two different observations");
     }
     a
+}
+
+/// One instance carrying the legacy value under *two* migrating spellings of the same new
+/// property (`BrickColor` and `brickColor`) with different values and no explicit new value.
+/// Which of the two wins is not specified - but it is the same DOM, so writing it as binary
+/// and writing it as XML must agree, whatever order the two were set in.
+#[derive(Clone, Debug, Serialize, Deserialize)]
+pub struct CaseDouble {
+    pub class: String,
+    pub double_a: String,
+    pub double_b: String,
+    pub value: usize,
+}
+
+pub fn double_cases() -> Vec<CaseDouble> {
+    let mut out = Vec::new();
+    let mut seen = std::collections::BTreeSet::new();
+    for (class, legacy, to) in migrating_pairs() {
+        for other in legacy_spellings(&class, &to) {
+            if other != legacy && seen.insert((class.clone(), legacy.clone().min(other.clone()), legacy.clone().max(other.clone()))) {
+                for value in 0..legacy_values(&class, &legacy).len().min(4) {
+                    out.push(CaseDouble { class: class.clone(), double_a: legacy.clone(), double_b: other.clone(), value });
+                }
+            }
+        }
+    }
+    out
+}
+
+pub fn judge_double(c: &CaseDouble) -> Vec<(String, String)> {
+    let mut out = Vec::new();
+    let values = legacy_values(&c.class, &c.double_a);
+    let (Some(va), Some(vb)) = (values.get(c.value), values.get((c.value + 1) % values.len().max(1))) else { return out };
+    let (new_name, migration) = match specdb::lookup(&c.class, &c.double_a) {
+        Lookup::Known(k) => match k.ser {
+            Ser::Migrate { to, migration } => (to, migration),
+            _ => return out,
+        },
+        _ => return out,
+    };
+    let allowed: Vec<String> = [&va.1, &vb.1].iter().filter_map(|v| migration.perform(v).ok()).map(|v| r(&v)).collect();
+    if allowed.len() != 2 {
+        return out;
+    }
+    let mut results: Vec<(String, Result<Option<String>, String>)> = Vec::new();
+    for a_first in [true, false] {
+        let mut b = InstanceBuilder::new(c.class.as_str()).with_name("subject");
+        if a_first {
+            b = b.with_property(c.double_a.as_str(), va.1.clone()).with_property(c.double_b.as_str(), vb.1.clone());
+        } else {
+            b = b.with_property(c.double_b.as_str(), vb.1.clone()).with_property(c.double_a.as_str(), va.1.clone());
+        }
+        let dom = WeakDom::new(InstanceBuilder::new("DataModel").with_child(b));
+        let roots = dom.root().children().to_vec();
+        let nn = new_name.clone();
+        let bin = crate::evidence::guarded(|| -> Result<Option<String>, String> {
+            let mut buf = Vec::new();
+            rbx_binary::to_writer(&mut buf, &dom, &roots).map_err(|e| format!("encode: {}", e))?;
+            let d = rbx_binary::from_reader(buf.as_slice()).map_err(|e| format!("decode: {}", e))?;
+            Ok(props_of(&d)?.get(&nn).cloned())
+        })
+        .unwrap_or_else(|(s, m)| Err(format!("panic at {}: {}", s, m)));
+        results.push((format!("write-binary/{}", if a_first { "a-first" } else { "b-first" }), bin));
+        let nn = new_name.clone();
+        let xml = crate::evidence::guarded(|| -> Result<Option<String>, String> {
+            let mut buf = Vec::new();
+            rbx_xml::to_writer_default(&mut buf, &dom, &roots).map_err(|e| format!("encode: {}", e))?;
+            let text = String::from_utf8_lossy(&buf).to_string();
+            if text.matches(&format!(" name=\"{}\">", nn)).count() > 1 {
+                return Err(format!("the document holds {} elements named {}", text.matches(&format!(" name=\"{}\">", nn)).count(), nn));
+            }
+            let d = rbx_xml::from_reader_default(buf.as_slice()).map_err(|e| format!("decode: {}", e))?;
+            Ok(props_of(&d)?.get(&nn).cloned())
+        })
+        .unwrap_or_else(|(s, m)| Err(format!("panic at {}: {}", s, m)));
+        results.push((format!("write-xml/{}", if a_first { "a-first" } else { "b-first" }), xml));
+    }
+    let tag = format!("{}+{}->{}", c.double_a, c.double_b, new_name);
+    let mut firsts: Option<String> = None;
+    for (path, res) in &results {
+        match res {
+            Err(e) => out.push((format!("migrate|double-legacy|error|{}|{}", path.split('/').next().unwrap_or(""), tag), format!("{}: {}{{{}={}, {}={}}} failed: {}", path, c.class, c.double_a, va.0, c.double_b, vb.0, e))),
+            Ok(None) => out.push((format!("migrate|double-legacy|new-missing|{}", tag), format!("{}: neither legacy value reached {}", path, new_name))),
+            Ok(Some(v)) => {
+                if !allowed.contains(v) {
+                    out.push((format!("migrate|double-legacy|foreign-value|{}", tag), format!("{}: {} = {} is the migration of neither legacy value", path, new_name, v)));
+                }
+                match &firsts {
+                    None => firsts = Some(v.clone()),
+                    Some(f) if f != v => out.push((
+                        format!("migrate|double-legacy|paths-disagree|{}", tag),
+                        format!("{}{{{}={}, {}={}}}: {} gives {} = {}, {} gives {}", c.class, c.double_a, va.0, c.double_b, vb.0, results[0].0, new_name, f, path, v),
+                    )),
+                    _ => {}
+                }
+            }
+        }
+    }
+    out.sort();
+    out.dedup_by(|a, b| a.0 == b.0);
+    out
 }
